@@ -8,7 +8,6 @@ import (
 	"net"
 	"os"
 	"path/filepath"
-	"runtime"
 	"strings"
 	"sync/atomic"
 	"testing"
@@ -656,7 +655,6 @@ type c09H struct {
 	n      *node.Node
 	nw     *simnet.Network
 	lb     *logBuf
-	base   int
 	seq    int
 	open   *serf.QueryResponse
 	dir    string
@@ -716,8 +714,6 @@ func newC09H(c *c09Case) (*c09H, error) {
 	h.n.Drain(node.Settle)
 	h.nw.Packets()
 	h.lb.Take()
-	runtime.Gosched()
-	h.base = runtime.NumGoroutine()
 	return h, nil
 }
 
@@ -824,7 +820,7 @@ func (h *c09H) inject1(in *c09In) {
 			}
 			time.Sleep(500 * time.Microsecond)
 		}
-		waitGoroutines(h.base, 2*time.Second)
+		waitSerfWork(2 * time.Second)
 		if s.State() == serf.SerfShutdown {
 			h.selfDn = true
 		}
@@ -875,9 +871,8 @@ func (h *c09H) settle() (ok bool, why string) {
 		if !h.canary() {
 			return false, "canary user event not delivered within 10s"
 		}
-		if !waitGoroutines(h.base, 3*time.Second) {
-			h.fx["goroutines-lingering"] = true
-			h.base = runtime.NumGoroutine()
+		if !waitSerfWork(5 * time.Second) {
+			h.fx["handler-goroutines-lingering"] = true
 		}
 		fed := 0
 		for _, p := range node.UserMsgs(h.nw.Packets()) {
